@@ -324,6 +324,7 @@ func runC10(c *eng.Ctx) {
 		RunFuncDisposables(c, "C10", cr.next)
 		RunPartialOutputs(c, "C10", cr.next)
 		RunDynamicTypeDisposables(c, cr.next)
+		RunNonComparableDisposables(c, cr.next)
 		if C10Overlap != nil {
 			C10Overlap(c, cr.next)
 		}
